@@ -268,7 +268,7 @@ class NodeRunner:
 class NodeSuite(Suite):
     name = 'node'
     prelude = 'From Sup Require Import Node NodeSpec.\nOpen Scope Z_scope.'
-    case_type = 'ncase'
+    case_type = 'vcase'
     evals = {'mismatches': 'mismatches'}
     shard_size = 100
 
@@ -276,6 +276,10 @@ class NodeSuite(Suite):
         self._clock = False
         if evals:
             self.evals = dict(evals)
+        # a case carries two observables (ncase, views): `mismatches` compares both, the other evaluators are
+        # stated on the first one
+        self.evals = {k: ('mismatches_v' if v == 'mismatches' else f'(fun cs => {v} (map fst cs))')
+                      for k, v in self.evals.items()}
         self.quick, self.thorough = quick, thorough
 
     # ------------------------------------------------------------ generation
@@ -519,7 +523,7 @@ class NodeSuite(Suite):
     def execute(self, inp):
         cfg, evs = inp
         run = NodeRunner(self, cfg)
-        out, oracles, resolutions = [], [], []
+        out, oracles, resolutions, views = [], [], [], []
         for e in evs:
             tag, val, picks, res = run.apply(e)
             out.append((tag, val))
@@ -527,7 +531,14 @@ class NodeSuite(Suite):
             resolutions.append(res)
             if tag == 'crash':
                 break
-        return {'init': run.init, 'obs': out, 'picks': oracles, 'res': resolutions}
+            views.append(self.views(run.supv))
+        return {'init': run.init, 'obs': out, 'picks': oracles, 'res': resolutions, 'views': views}
+
+    @staticmethod
+    def views(supv):
+        return [(idx(k), sm.state.value, bool(sm.degraded_mode), idx(sm.master_identifier),
+                 [(idx(x), v.value) for x, v in sm.instance_states.items()])
+                for k, sm in supv.state_modes.instance_state_modes.items()]
 
     @staticmethod
     def resolve(supv, og):
@@ -630,7 +641,8 @@ class NodeSuite(Suite):
                                        [self.emit_output(o) for o in outs])))
             else:
                 obs.append(app('NCrash', C(val)))
-        return coq((node, events, obs))
+        views = [[(k, f, d, m, list(insts)) for k, f, d, m, insts in step] for step in observed['views']]
+        return coq(((node, events, obs), views))
 
     def describe(self, inp, observed):
         cfg, evs = inp
